@@ -1,4 +1,5 @@
 //! vcheck — property-based verification harness for scpi-rs (see /verif/DESIGN.md).
+pub mod bytes;
 pub mod conv;
 pub mod engine;
 pub mod model;
